@@ -7,16 +7,14 @@ all stabilizer generators commute (the operators are truncated at the open bound
 other, `n = Lx·Ly·Lz + (Lx−1)(Ly−1)Lz + (Lx−1)Ly(Lz−1)`, `k = 1`, and `get_deformation` follows the
 `XZZX` rule.
 
-Not proved for all sizes: the rank clause
-
-    rank (stabilizer_matrix (lattice Lx Ly Lz)) = n − 1
-
-(the vertex operators are independent, the face operators satisfy one relation per cube
-`(x, y, z)` with `x ∈ range(1, 2Lx+1, 2)`, `y ∈ range(1, 2Ly−1, 2)`, `z ∈ range(1, 2Lz−1, 2)`);
-it is covered per instance by the kernel-checked tables of `Properties/C01.lean`, and `C01.rank_le`
-gives `≤` from the clauses proved here.
+The rank clause is proved for all sizes at the operator level (`rank_family`): an explicit family
+of `n − k` generators — all vertices, the xy faces of the layer `z = 0`, all yz and xz faces — is
+GF(2)-independent (no non-empty sub-family has even X- and Z-parity on every location).  With
+`C01.rank_upper_bound` (commutation + pairing force rank ≤ n − k, every code) the rank is exactly
+`n − k`; the translation of `OpsIndep` into `Indep` on BSF rows is the operator/BSF bridge
+(`Proofs/OpComm.lean`), not repeated here.
 -/
-import PanqecVerif.Proofs.LatPlanar3DCodeWF
+import PanqecVerif.Proofs.LatPlanar3DCodeRank
 
 namespace Panqec.C01Planar3DCode
 open Panqec.Cubic3D Panqec.Planar3DCode
@@ -84,6 +82,21 @@ theorem n_stabilizers_formula (Lx Ly Lz : Nat) :
 theorem k_value (Lx Ly Lz : Nat) : (lattice Lx Ly Lz).toCodeData.k = 1 := by
   simp only [Lattice.toCodeData, CodeData.k, lattice_logX]; rfl
 
+/-- The rank clause for every supported size: `rankFamily` (all vertices, the xy faces with
+    `z = 0`, all yz faces, all xz faces) is a sub-list of `get_stabilizer_coordinates` with exactly
+    `n − k` members whose operators are GF(2)-independent: no non-empty sub-family multiplies to the
+    identity (even X-parity and even Z-parity on every location). -/
+theorem rank_family (Lx Ly Lz : Nat) (hLx : 1 ≤ Lx) (hLy : 1 ≤ Ly) (hLz : 1 ≤ Lz) :
+    ∃ B : List Coord, B.Sublist (lattice Lx Ly Lz).stabs ∧
+      B.length = (lattice Lx Ly Lz).toCodeData.n - (lattice Lx Ly Lz).toCodeData.k ∧
+      OpsIndep (B.map (lattice Lx Ly Lz).getStab) := by
+  refine ⟨rankFamily Lx Ly Lz, ?_, ?_, ?_⟩
+  · rw [lattice_stabs]; exact rankFamily_sublist hLz
+  · rw [k_value]
+    simp only [Lattice.toCodeData, CodeData.n, lattice_qubits]
+    exact rankFamily_length hLx hLy hLz
+  · rw [lattice_getStab]; exact rankFamily_indep hLx hLy hLz
+
 /-- CSS structure for every size: a stabilizer location is a `'vertex'` whose operator carries only Z
     (on at most 6 qubits) or a `'face'` whose operator carries only X (on at most 4 qubits). -/
 theorem stabilizer_shape (Lx Ly Lz : Nat) {s : Coord}
@@ -144,6 +157,15 @@ theorem deformation_perm {name : String} {axis : Option String} {loc : Coord} {m
 example : (lattice 1 1 1).WF := wf 1 1 1 (by decide) (by decide) (by decide)
 example : (lattice 2 3 4).CommPair := commPair 2 3 4 (by decide) (by decide) (by decide)
 example : (lattice 2 3 4).toCodeData.n = 41 := n_formula 2 3 4
+example : (rankFamily 2 3 4).length = 40 := by decide +kernel
+/-- `OpsIndep` is not vacuous: a family containing the same operator twice is dependent -/
+example : ¬ OpsIndep [uop [[1, 0, 0]] .X, uop [[1, 0, 0]] .X] := by
+  intro h
+  have := h _ (List.Sublist.refl _) (by
+    intro q
+    simp only [List.countP_cons, List.countP_nil, hitX_uop, hitZ_uop]
+    by_cases hq : q ∈ [[(1 : Int), 0, 0]] <;> simp [hq])
+  simp at this
 /-- a vertex on the boundary `y = 0`, `z = 0`: four of the six neighbours are qubits -/
 example : getStab 2 2 2 [2, 0, 0] =
     [([3, 0, 0], .Z), ([1, 0, 0], .Z), ([2, 1, 0], .Z), ([2, 0, 1], .Z)] := by decide +kernel
